@@ -166,6 +166,7 @@ reg("C16",
     "27 scenarios at synchronisation points with <= 3 preemptions; all of them at line points with <= 2 preemptions (time-capped, simplest first)",
     ["most scenario DAGs use main-thread nodes only, so no thread exists that the baton scheduler does not own; in the pooled_call scenarios the worker threads of the library's own pools run pure node functions freely (they finish by themselves) while the two scheduler threads interleave under the baton",
      "every lock object found in a global of a tawazi module is replaced by a cooperative lock before a scenario runs (a real lock held across a baton hand-over would block the process)",
+     "five scenarios (first_call||first_call, setup(pa)||setup(pb), call||setup(pb), slow_setup||debug_call, slow_setup||slow_setup) go beyond the letter of the quantifier, which speaks of calls AFTER the setup nodes have run and of the operations call / build / bare call: see DESIGN.md 9.3",
      "line granularity is the finest preemption grain CPython exposes to sys.settrace; library frames (networkx, asyncio, pydantic) are not preemptible"])
 
 reg("C17",
